@@ -4,8 +4,6 @@
     pre-filter) and the declarative filter. *)
 From LOV Require Export Corr.Common Corr.Rows Cache.Select.
 
-Notation lcond := (sym * cfun * lvalue)%type.
-Definition mk_cond (c : lcond) : cond := let '(col, f, v) := c in (col, f, canon v).
 
 Record cfgobs := mkCfg { g_specs : list ispec; g_res : list (option (list sym)) }.
 Record case := mk { c_rows : list (sym * lrow); c_conds : list (list lcond); c_cfgs : list cfgobs }.
